@@ -337,6 +337,9 @@ func visitInstr(fr *frame, instr ssa.Instruction) continuation {
 
 	case *ssa.Index:
 		x := fr.get(instr.X)
+		if nt, ok := x.(numtext); ok {
+			x = nt.expand()
+		}
 		switch x := x.(type) {
 		case array:
 			fr.env[instr] = x[i.boundedIndex(fr.get(instr.Index), len(x))]
